@@ -144,6 +144,16 @@ def run(ctx):
         ctx.count("R4.signing_handlers")
         ctx.ob("R4", "signed-before-success|%s" % sub["func"], fn_site(eng, smh).loc(), "%s %s" % (sub["func"], "returns a zero/None status only after %s returned normally (%d such paths)" % (", ".join(signers), n) if not bad else "can return a zero/None status without having signed (%d of %d falsy-return paths do not follow a successful signer call)" % (bad, n)), bad == 0 and n > 0)
     ctx.floor("R4.signing_handlers", 2)
+    # "exit zero only if they actually signed": a signer that returns normally has written its output
+    for q in SIGNERS:
+        if q not in prog.funcs:
+            continue
+        sms = eng.walk(q)
+        rets = [p for p in sms.paths if p.kind == "return"]
+        nowrite = [p for p in rets if not any(ev[0] == "call" and ev[2] == "repo:common.write_metadata_to_file" and ev[5][0] == "ok" for ev in flat(p))]
+        ctx.count("R4.signers")
+        ctx.ob("R4", "returns-only-after-writing|%s" % q, fn_site(eng, sms).loc(), "%s %s" % (q, "returns normally only after write_metadata_to_file succeeded (%d returning paths)" % len(rets) if rets and not nowrite else "can return normally without having written its output (%d of %d returning paths): the command would report success although nothing was signed" % (len(nowrite), len(rets))), bool(rets) and not nowrite)
+    ctx.floor("R4.signers", 2)
 
 
 def _entry_points(ctx):
